@@ -221,6 +221,7 @@ func worker(args []string) int {
 		rs := runSeed(seed, id, i)
 		ts := tape.NewSet(rs)
 		res := ck.Run(ts, tier)
+		curRun.Store(-1) // the watchdog times single runs, not the minimisation that may follow
 		wo.Runs++
 		wo.Execs += res.Execs
 		wo.Events += res.Events
